@@ -127,6 +127,9 @@ def spaces(tier, seed):
         Product("after-the-unaccented-spelling", {"n": [i for i, x in enumerate(N) if x[3] and vocab.strip_accents(x[2]) != x[2]], "d": [15], "y": [2015], "mode": [False, True]},
                 note="two-call history inside the case: the name typed without its accents is parsed first under the other NORMALIZE value (whatever that gives), "
                      "then the listed spelling must resolve"),
+        Product("after-a-call-that-skips-the-name", {"n": months + wds, "d": [15], "y": [2015]},
+                note="two-call history inside the case: the same string is parsed first with SKIP_TOKENS naming the word itself (whatever that gives), then the name "
+                     "must resolve under settings without that entry - with a RELATIVE_BASE no earlier call used, so that no per-settings cache filled earlier in the worker masks what the first call left behind"),
         Product("after-loading-sibling-locales", {"order": ORDERS, "n": fam_names},
                 note="fresh interpreter per (language, load order): all locale objects of the language are loaded in that order, then every name of "
                      "every one of them is checked - a locale must understand its names whatever sibling locales were used before"),
@@ -136,6 +139,9 @@ def spaces(tier, seed):
                                   if not T else [datetime(2019, 5, d, 12, 0) for d in range(8, 25)]},
                 note="weekday name alone, reference date on the 8th..24th"),
     ]
+
+
+_fresh_key = 0
 
 
 def run_case(sub, c):
@@ -151,6 +157,19 @@ def run_case(sub, c):
         if r[2] is not None:
             r[2]["detail"]["first_call"] = {"string": first, "NORMALIZE": c["mode"]}
         return r
+    if sub == "after-a-call-that-skips-the-name":
+        global _fresh_key
+        _fresh_key = (_fresh_key + 1) % 999983
+        m_ = key in vocab.MONTH_KEYS
+        first = ("%d %s %d" % (c["d"], name, c["y"])) if m_ else name
+        langs_, locs_ = ([lang], None) if loc is None else (None, [loc])
+        skip = sorted({name.lower(), vocab.strip_accents(name.lower())})
+        api.outcome_of(api.gdd, first, langs_, locs_, None, {"NORMALIZE": norm, "SKIP_TOKENS": skip, "RELATIVE_BASE": FAM_BASE})
+        r = run_case("month-names" if m_ else "weekday-names", {"n": c["n"], "d": c["d"], "y": c["y"], "base": FAM_BASE.replace(microsecond=_fresh_key), "fresh": _fresh_key})
+        if r[2] is not None:
+            r[2]["cls"]["after_a_call_that_skips_the_name"] = True
+            r[2]["detail"]["first_call"] = {"string": first, "SKIP_TOKENS": skip}
+        return r
     if sub == "after-loading-sibling-locales":
         bad = family_result(lang, c["order"]).get(c["n"])
         if bad is None:
@@ -161,6 +180,8 @@ def run_case(sub, c):
                                         "note": "python -c 'from vf.props import c05; print(c05.family_run(%r, %r))'" % (lang, c["order"])}}
     st = {"NORMALIZE": norm}
     langs, locs = ([lang], None) if loc is None else (None, [loc])
+    if "fresh" in c:
+        st["RELATIVE_BASE"] = FAM_BASE.replace(microsecond=c["fresh"])
     if sub == "month-names":
         m = vocab.MONTH_KEYS.index(key) + 1
         s = "%d %s %d" % (c["d"], name, c["y"])
